@@ -114,7 +114,14 @@ func setupDN(fx *vfixture, d *DNIn, vc vcase) {
 		case "wildcard":
 			fx.identities = append(fx.identities, "*")
 		case "other":
-			fx.identities = append(fx.identities, fmt.Sprintf("did.example:signer-%d", i))
+			// an identity of another kind: an unrelated one, or one whose kind is a NEAR MISS of "x509.subject" and whose value is the
+			// signer's very subject - it is no x509.subject identity all the same and pins nothing
+			near := []string{"x509.subjectAltName", "x509.subjects", "X509.subject", "x509.subject.issuer", "x509", "x509.subjec", " x509.subject", "x509.subject "}
+			if k := int(salt+uint32(i)) % (len(near) + 2); k < len(near) {
+				fx.identities = append(fx.identities, near[k]+": "+renderDN(leafDN, salt+uint32(i)))
+			} else {
+				fx.identities = append(fx.identities, fmt.Sprintf("did.example:signer-%d", i))
+			}
 		case "x509":
 			fx.identities = append(fx.identities, "x509.subject:"+[]string{" ", ""}[int(salt)%2]+renderDN(map[string]string(id.DN), salt+uint32(i)*5))
 		case "badTail":
